@@ -9,7 +9,8 @@ def boundary_name(per, kind):
 def rhd_param(outdir, ncell=(8, 8, 8), nsub=(2, 2, 2), periodic=(True, True, True), side=(1.0, 1.0, 1.0),
               anchor=(0.0, 0.0, 0.0), wall="reflective", gamma=5. / 3., total_time=1.0e-3, cfl=0.2,
               min_dt=None, max_dt=None, blocks=None, radiation=False, seed=42, dump_every_step=False,
-              max_backups=1, nphoton=1000, niter=1, riemann="Exact", extra="", relative_paths=False, nsources=1, source_block=None):
+              max_backups=1, nphoton=1000, niter=1, riemann="Exact", extra="", relative_paths=False, nsources=1, source_block=None,
+              diffuse=None, copy_level=None, sigma_h="6.3e-18 cm^2", luminosity=1.e46, alpha_h="2.7e-13 cm^3 s^-1", nbuffers=200, ntasks=5000, xh=None):
     """Write <outdir>/run.param and <outdir>/blocks.yml; returns the param path.
 
     blocks: list of dicts(origin, sides, n (m^-3), T (K), v (m/s)) - default two
@@ -26,11 +27,13 @@ def rhd_param(outdir, ncell=(8, 8, 8), nsub=(2, 2, 2), periodic=(True, True, Tru
               "  number density: %r m^-3\n  initial temperature: %r K\n"
               "  initial velocity: [%r m s^-1, %r m s^-1, %r m s^-1]\n\n" % (
                   (i,) + tuple(b["origin"]) + tuple(b["sides"]) + (b["n"], b["T"]) + tuple(b["v"])))
+        if xh is not None or "xh" in b:
+            y = y[:-1] + "  neutral fraction H: %r\n\n" % b.get("xh", xh)
     open(os.path.join(outdir, "blocks.yml"), "w").write(y)
     bl = lambda v: "true" if v else "false"
     p = """CrossSections:
   type: FixedValue
-  hydrogen_0: 6.3e-18 cm^2
+  hydrogen_0: %(sigma_h)s
   helium_0: 0. m^2
   carbon_1: 0. m^2
   carbon_2: 0. m^2
@@ -47,7 +50,7 @@ def rhd_param(outdir, ncell=(8, 8, 8), nsub=(2, 2, 2), periodic=(True, True, Tru
 
 RecombinationRates:
   type: FixedValue
-  hydrogen_1: 2.7e-13 cm^3 s^-1
+  hydrogen_1: %(alpha_h)s
   helium_1: 0. m^3 s^-1
   carbon_2: 0. m^3 s^-1
   carbon_3: 0. m^3 s^-1
@@ -112,8 +115,8 @@ TaskBasedRadiationHydrodynamicsSimulation:
   do radiation: %(rad)s
   number of iterations: %(niter)d
   number of photons: %(nphoton)d
-  number of buffers: 200
-  number of tasks: 5000
+  number of buffers: %(nbuffers)d
+  number of tasks: %(ntasks)d
   queue size per thread: 2000
   shared queue size: 2000
   output folder: %(dir)s
@@ -123,7 +126,9 @@ TaskBasedRadiationHydrodynamicsSimulation:
 %(dts)s%(extra)s
 TemperatureCalculator:
   do temperature calculation: false
-""" % dict(dir="." if relative_paths else outdir, nc0=ncell[0], nc1=ncell[1], nc2=ncell[2], ns0=nsub[0], ns1=nsub[1], ns2=nsub[2],
+%(diffblock)s""" % dict(dir="." if relative_paths else outdir, sigma_h=sigma_h, alpha_h=alpha_h, nbuffers=nbuffers, ntasks=ntasks,
+           diffblock=("\nDiffuseReemissionHandler:\n  type: FixedValue\n  reemission probability: %r\n"
+                      "  reemission frequency: 13.7 eV\n" % diffuse) if diffuse else "", nc0=ncell[0], nc1=ncell[1], nc2=ncell[2], ns0=nsub[0], ns1=nsub[1], ns2=nsub[2],
            p0=bl(periodic[0]), p1=bl(periodic[1]), p2=bl(periodic[2]), gamma=gamma, riemann=riemann,
            bx=boundary_name(periodic[0], wall), by=boundary_name(periodic[1], wall),
            bz=boundary_name(periodic[2], wall),
@@ -131,19 +136,20 @@ TemperatureCalculator:
            dumpint="0. s" if dump_every_step else "1.e9 s", maxb=max_backups,
            a0=anchor[0], a1=anchor[1], a2=anchor[2], s0=side[0], s1=side[1], s2=side[2],
            cfl=cfl, rad=bl(radiation), niter=niter, nphoton=nphoton, seed=seed, tt=total_time,
-           psd=source_block if source_block else ("PhotonSourceDistribution:\n  type: SingleStar\n  luminosity: 1.e+46 s^-1\n  position: [%r m, %r m, %r m]\n" % (
-               anchor[0] + 0.5 * side[0], anchor[1] + 0.5 * side[1], anchor[2] + 0.5 * side[2])) if nsources == 1 else
+           psd=source_block if source_block else ("PhotonSourceDistribution:\n  type: SingleStar\n  luminosity: %r s^-1\n  position: [%r m, %r m, %r m]\n" % (
+               luminosity, anchor[0] + 0.5 * side[0], anchor[1] + 0.5 * side[1], anchor[2] + 0.5 * side[2])) if nsources == 1 else
                ("PhotonSourceDistribution:\n  type: AsciiFile\n  filename: %s/sources.yml\n" % ("." if relative_paths else outdir)),
            dts=("  minimum timestep: %r s\n" % min_dt if min_dt else "") +
                ("  maximum timestep: %r s\n" % max_dt if max_dt else ""),
-           extra=extra)
+           extra=extra + ("  diffuse field: true\n" if diffuse else "") +
+           ("  source copy level: %d\n" % copy_level if copy_level is not None else ""))
     if nsources > 1:
         frac = [(0.5, 0.5, 0.5), (0.2, 0.7, 0.3), (0.8, 0.3, 0.6), (0.3, 0.2, 0.8), (0.7, 0.8, 0.2)][:nsources]
         lum = [1., 2., 5., 3., 7.][:nsources]
         y = "number of sources: %d\n\n" % nsources
         for i in range(nsources):
             y += "source[%d]:\n  position: [%r m, %r m, %r m]\n  luminosity: %r s^-1\n\n" % (
-                (i,) + tuple(anchor[k] + frac[i][k] * side[k] for k in range(3)) + (1.0e46 * lum[i] / sum(lum),))
+                (i,) + tuple(anchor[k] + frac[i][k] * side[k] for k in range(3)) + (luminosity * lum[i] / sum(lum),))
         open(os.path.join(outdir, "sources.yml"), "w").write(y)
     path = os.path.join(outdir, "run.param")
     open(path, "w").write(p)
